@@ -718,7 +718,7 @@ class C15(PropBase):
             for i, line, r in zip(idx, lines, res):
                 compared += 1
                 view = line.split("\t", 1)[1]
-                mview, ok, mconf, wf, rconf = ((r or "").split("\t") + ["", "", "", "", ""])[:5]
+                mview, ok, mconf, wf, rconf, rwid = ((r or "").split("\t") + ["", "", "", "", "", ""])[:6]
                 wfs[wf] = wfs.get(wf, 0) + 1
                 os_unknown = " SYS 8 " in line.split("\t", 1)[0]
                 what = None
@@ -733,6 +733,9 @@ class C15(PropBase):
                 elif wf != "1" and not os_unknown:
                     what = ("the hypotheses [wf_state] of theorem c15_schema_conformance do not hold on this real process state "
                             "(only Os::Unknown, finding F-C15a, is a recorded exception)")
+                elif wf == "1" and rwid != "1":
+                    what = ("address width: the Gallina walker [widths] (theorem c15_address_widths) finds an Address-valued member of the real "
+                            "print_json document that is not padded to the platform's pointer width")
                 elif wf == "1" and rconf != "1":
                     what = ("schema: the Gallina checker [conforms DOC_SCHEMA] (schema regenerated from json-schema.md) rejects the real "
                             "print_json document although the state satisfies wf_state")
